@@ -623,3 +623,132 @@ v("C16", "getPayloadRef-position-constant-drift", "fire", F,
   "            Metrics.addUse(self.getRankAttrs().getId(), coords[0], len(self.coords), type_=trace)\n\n        if len(coords) > 1:\n            # Recurse to the next level's fiber\n            assert Payload.contains(payload, Fiber), \"Too many coordinates\"", "C16.R3")
 v("C16", "silent-addUse-temp-row", "silent", M,
   "        data = iteration + point + [pos]", "        tail = [pos]\n        data = iteration + point + tail")
+
+# ---------------------------------------------------------------- C18
+FM = "model/format.py"
+v("C18", "default-bits-one", "fire", FM,
+  "            self.spec[rank][field] = 0", "            self.spec[rank][field] = 1", "C18.R1")
+v("C18", "default-format-U", "fire", FM,
+  "self._checkFillStrField(rank, \"format\", \"C\", [\"C\", \"U\"])",
+  "self._checkFillStrField(rank, \"format\", \"U\", [\"C\", \"U\"])", "C18.R1")
+v("C18", "footprint-forgets-coords", "fire", FM,
+  "            + self.spec[rank][\"pbits\"] * num_elems \\\n            + self.spec[rank][\"cbits\"] * num_elems", "            + self.spec[rank][\"pbits\"] * num_elems", "C18.R2")
+v("C18", "footprint-header-per-element", "fire", FM,
+  "        return self.spec[rank][\"fhbits\"] \\", "        return self.spec[rank][\"fhbits\"] * num_elems \\", "C18.R2")
+v("C18", "footprint-swapped-count", "fire", FM,
+  "        if self.spec[rank][\"format\"] == \"C\":\n            num_elems = len(fiber)",
+  "        if self.spec[rank][\"format\"] == \"U\":\n            num_elems = len(fiber)", "C18.R2")
+v("C18", "rank-no-header", "fire", FM,
+  "        total = self.spec[rank_id][\"rhbits\"]", "        total = 0", "C18.R3")
+v("C18", "tensor-no-root", "fire", FM,
+  "        total = self.getRoot()", "        total = 0", "C18.R3")
+v("C18", "subtree-always-occupancy", "fire", FM,
+  "                iter_ = fiber.iterShape()", "                iter_ = fiber.iterOccupancy()", "C18.R3")
+v("C18", "subtree-full-point-only-payload", "fire", FM,
+  "            return self.spec[self.tensor.getRankIds()[-1]][\"cbits\"] + \\\n                self.spec[self.tensor.getRankIds()[-1]][\"pbits\"]",
+  "            return self.spec[self.tensor.getRankIds()[-1]][\"pbits\"]", "C18.R3")
+v("C18", "subtree-ref-iteration", "fire", FM,
+  "                iter_ = fiber.iterShape()", "                iter_ = fiber.iterShapeRef()", "C18.R3")
+v("C18", "silent-footprint-factored", "silent", FM,
+  "        return self.spec[rank][\"fhbits\"] \\\n            + self.spec[rank][\"pbits\"] * num_elems \\\n            + self.spec[rank][\"cbits\"] * num_elems",
+  "        return self.spec[rank][\"fhbits\"] \\\n            + (self.spec[rank][\"pbits\"] + self.spec[rank][\"cbits\"]) * num_elems")
+
+# ---------------------------------------------------------------- C13
+v("C13", "dump-renames-shape-key", "fire", T,
+  "                'shape': self.getShape(),", "                'shapes': self.getShape(),", "C13.R1")
+v("C13", "dump-root-not-list", "fire", T,
+  "                'root': [root_dict]", "                'root': root_dict", "C13.R1")
+v("C13", "fiber2dict-renames-payloads", "fire", F,
+  "                       'payloads': [Payload.payload2dict(p) for p in self.payloads]",
+  "                       'values': [Payload.payload2dict(p) for p in self.payloads]", "C13.R1")
+v("C13", "makeFiber-literal-zero", "fire", F,
+  "        zipped = [(c, p) for c, p in enumerate(payload_list) if p != default]",
+  "        zipped = [(c, p) for c, p in enumerate(payload_list) if p != 0]", "C13.R2")
+v("C13", "makeFiber-recursion-drops-default", "fire", F,
+  "                real_p = Fiber._makeFiber(p, default=default)", "                real_p = Fiber._makeFiber(p)", "C13.R2")
+v("C13", "fromUncompressed-empty-no-shape", "fire", F,
+  "            return Fiber([], [], shape=len(payload_list), default=default)",
+  "            return Fiber([], [], default=default)", "C13.R2")
+v("C13", "tensor-fromUncompressed-drops-default", "fire", T,
+  "        fiber = Fiber.fromUncompressed(root, default=default)", "        fiber = Fiber.fromUncompressed(root)", "C13.R2")
+v("C13", "fromRandom-reseeds-recursion", "fire", F,
+  "                    payload = Fiber.fromRandom(shape[1:],\n                                               density[1:],\n                                               interval,\n                                               default=default)",
+  "                    payload = Fiber.fromRandom(shape[1:],\n                                               density[1:],\n                                               interval,\n                                               seed=seed,\n                                               default=default)", "C13.R3")
+v("C13", "fromRandom-seed-after-draw", "fire", F,
+  "        if seed is not None:\n            random.seed(seed)\n\n        coords = []\n        payloads = []\n\n        for c in range(shape[0]):",
+  "        coords = []\n        payloads = []\n\n        for c in range(shape[0]):\n            if seed is not None and c == 1:\n                random.seed(seed)", "C13.R3")
+v("C13", "fromRandom-uses-sample", "fire", F,
+  "            if random.random() < density[0]:", "            if random.SystemRandom().random() < density[0]:", "C13.R3")
+v("C13", "silent-makeFiber-flip", "silent", F,
+  "        zipped = [(c, p) for c, p in enumerate(payload_list) if p != default]",
+  "        zipped = [(c, p) for c, p in enumerate(payload_list) if default != p]")
+
+# ---------------------------------------------------------------- C17
+TR = "model/traffic.py"
+v("C17", "stale-tensor-in-shapes-loop", "fire", TR,
+  "        for i, info in enumerate(bind_info):\n            tensor, rank = info[:2]\n            if pin_intermediate_writes(info):",
+  "        for i, info in enumerate(bind_info):\n            if pin_intermediate_writes(info):", "C17.R3")
+v("C17", "stale-rank-in-masks-loop", "fire", TR,
+  "            tensor, rank = info[:2]\n            end = order.index(loop_ranks[rank]) + 1",
+  "            tensor = info[0]\n            end = order.index(loop_ranks[rank]) + 1", "C17.R3")
+v("C17", "next-traces-not-removed", "fire", TR,
+  "        for fn in next_use_traces.values():\n            os.remove(fn)\n", "", "C17.R1")
+v("C17", "early-return-skips-cleanup", "fire", TR,
+  "        # Close all files\n", "        if overflows > 10 ** 9:\n            return traffic, overflows\n        # Close all files\n", "C17.R1")
+v("C17", "combine-leaves-read-open", "fire", TR,
+  "            if f_read:\n                f_read.close()\n", "", "C17.R1")
+v("C17", "combine-ties-to-write", "fire", TR,
+  "                if write_line[0] < read_line[0]:", "                if write_line[0] <= read_line[0]:", "C17.R4")
+v("C17", "filter-advances-filter-on-less", "fire", TR,
+  "                elif data_in < data_fil:\n                    line_in = f_in.readline()\n                    data_in = get_data(line_in)",
+  "                elif data_in < data_fil:\n                    line_fil = f_fil.readline()\n                    data_fil = get_data(line_fil)[:len(data_in)]", "C17.R4")
+v("C17", "cache-add_elem-returns-four", "fire", TR,
+  "            sim_info = next_evict, pinned, None\n            return objs, occupancy, overflows, sim_info, traffic",
+  "            sim_info = next_evict, pinned, None\n            return objs, occupancy, sim_info, traffic", "C17.R2")
+v("C17", "buffet-callbacks-swapped", "fire", TR,
+  "            pre_sim_hook, to_be_buffered, add_elem, evict_elem)\n\n    @staticmethod\n    def _bufferTraffic",
+  "            pre_sim_hook, to_be_buffered, evict_elem, add_elem)\n\n    @staticmethod\n    def _bufferTraffic", "C17.R2")
+v("C17", "silent-shapes-loop-unpack3", "silent", TR,
+  "        for i, info in enumerate(bind_info):\n            tensor, rank = info[:2]\n            if pin_intermediate_writes(info):",
+  "        for i, info in enumerate(bind_info):\n            tensor, rank, _type = info[:3]\n            if pin_intermediate_writes(info):")
+
+# ---------------------------------------------------------------- C19
+IXF = "model/intersect.py"
+CPF = "model/compute.py"
+v("C19", "twofinger-gt-no-forwarding", "fire", IXF,
+  "                if point1 is None or fiber != point1[:-1]:\n                    point0, i0 = get_next(trace0, i0)\n\n            if point0:\n                fiber = point0[:-1]\n            else:\n                fiber = None\n",
+  "                if point1 is None:\n                    point0, i0 = get_next(trace0, i0)\n\n            if point0:\n                fiber = point0[:-1]\n            else:\n                fiber = None\n", "C19.R1", count=1)
+v("C19", "twofinger-counts-only-mismatch", "fire", IXF,
+  "        while point0 and point1:\n            self.num_intersects += 1\n\n            if point0 == point1:\n                point0, i0 = get_next(trace0, i0)\n                point1, i1 = get_next(trace1, i1)\n\n            elif point0 < point1:\n                point0, i0 = get_next(trace0, i0)\n",
+  "        while point0 and point1:\n            if point0 == point1:\n                point0, i0 = get_next(trace0, i0)\n                point1, i1 = get_next(trace1, i1)\n\n            elif point0 < point1:\n                self.num_intersects += 1\n                point0, i0 = get_next(trace0, i0)\n", "C19.R1")
+v("C19", "leaderfollower-header-every-call", "fire", IXF,
+  "        if not self.started:\n            self.started = True\n            new_intersects -= 1",
+  "        if True:\n            self.started = True\n            new_intersects -= 1", "C19.R1")
+v("C19", "swaps-depend-on-payload", "fire", CPF,
+  "            coords.append(sorted([-c for c in payload.getCoords()]))",
+  "            coords.append(sorted([-c for c, p in payload if p != 0]))", "C19.R2")
+v("C19", "merge-latency-per-element-only", "fire", CPF,
+  "            return next_latency * (len(coords) + len(merged)), merged",
+  "            return next_latency * len(merged), merged", "C19.R2")
+v("C19", "silent-merge-latency-expanded", "silent", CPF,
+  "            return next_latency * (len(coords) + len(merged)), merged",
+  "            return next_latency * len(coords) + next_latency * len(merged), merged")
+
+# ---------------------------------------------------------------- C20
+v("C20", "bitvector-drops-shape", "fire", "codec/formats/bitvector.py",
+  "codec.encode(depth + 1, val, ranks, output, output_tensor, shape=shape)",
+  "codec.encode(depth + 1, val, ranks, output, output_tensor)", "C20.R1")
+v("C20", "coordlist-drops-shape", "fire", "codec/formats/coord_list.py",
+  "codec.encode(depth + 1, val, ranks, output, output_tensor,shape=shape)",
+  "codec.encode(depth + 1, val, ranks, output, output_tensor)", "C20.R1")
+v("C20", "codec-encode-drops-shape", "fire", "codec/tensor_codec.py",
+  "fiber.encodeFiber(a, dim_len, self, depth, ranks, output, output_tensor, shape=shape)",
+  "fiber.encodeFiber(a, dim_len, self, depth, ranks, output, output_tensor)", "C20.R1")
+v("C20", "registry-B-is-coordlist", "fire", "codec/compression_types.py",
+  "\"C\":CoordinateList, \"B\": Bitvector, \"T\"", "\"C\":CoordinateList, \"B\": CoordinateList, \"T\"", "C20.R2")
+v("C20", "uncompressed-handmade-keys", "fire", "codec/formats/uncompressed.py",
+  "        coords_key, payloads_key = codec.get_keys(ranks, depth)\n        \n        # init vars",
+  "        coords_key, payloads_key = \"coords_\" + ranks[depth], \"payloads_\" + ranks[depth]\n        \n        # init vars", "C20.R3")
+v("C20", "silent-bitvector-positional-shape", "silent", "codec/formats/bitvector.py",
+  "codec.encode(depth + 1, val, ranks, output, output_tensor, shape=shape)",
+  "codec.encode(depth + 1, val, ranks, output, output_tensor, shape)")
